@@ -247,8 +247,14 @@ func execUDP(t *testing.T, tr *vrt.Tracer, sc udpScenario, ex *vrt.Explorer) {
 			for _, rs := range remotes {
 				_ = rs.Close()
 			}
-			wg.Wait()
+			ended := make(chan struct{})
+			go func() { wg.Wait(); close(ended) }()
 			synctest.Wait()
+			select {
+			case <-ended:
+			default:
+				hung = true // a call is still blocked although the listener and every connection were closed
+			}
 		default:
 			hung = true // a Close call does not return although nothing else is running
 		}
